@@ -44,6 +44,13 @@ SPEC = [
         "methods": ["__init__", "n_samples", "linear_sum", "replace_n_samples_and_linear_sum",
                     "add_to_n_samples_and_linear_sum", "update", "merge_subcluster"],
         "slots": True, "partial_init": True}),
+    # the node's entry list and its centroid cache, kept aligned: sub-clusters are handles (identities), their
+    # `packed_centroid` an input; the rows of the cache are centroid tokens
+    ("bblean/bitbirch.py", {
+        "classes": ["_BFNode"],
+        "methods": ["packed_centroids", "append_subcluster", "update_split_subclusters"],
+        "fields": ["_subclusters", "_packed_centroids_buf"],
+        "handles": ["_BFSubcluster"]}),
     ("bblean/bitbirch.py", {
         "classes": ["BitBirch"],
         "methods": ["__init__", "tolerance", "merge_criterion", "set_merge"],
@@ -128,6 +135,8 @@ class FnInfo:
         self.kind = kind                # "V" value, "L" list
         self.extra = extra              # extra (symbol) parameters: calling it from generated code is refused
         self.n_ret = 0                  # state-changing methods: number of returned values before the fields
+        self.symbols = []               # names of the symbol parameters, in signature order
+        self.handles = set()            # parameters that are object handles (their attributes are symbols `<param>_<attr>`)
 
 
 class Translator:
@@ -235,6 +244,10 @@ class Translator:
                 if e.attr in self.classes[ocls].get("props", {}):
                     return "(" + " ".join([self.classes[ocls]["props"][e.attr], "expf"] + [ident(f"{e.value.id}_{f}") for f in flds]) + ")"
                 raise Unsupported(f"attribute {src_of(e)} of an object parameter (line {e.lineno})")
+            if isinstance(e.value, ast.Name) and e.value.id in cx.get("handles", set()):
+                sname = ident(f"{e.value.id}_{e.attr}")
+                cx["symbols"].add(sname)
+                return sname
             if e.attr == "hasobject":
                 return f"(PV.hasobject {self.expr(e.value, cx)})"
             if isinstance(e.value, (ast.Name, ast.Attribute)) and e.attr in self.dispatch_attrs \
@@ -246,6 +259,11 @@ class Translator:
                 cx["symbols"].add(s)
                 return s
             raise Unsupported(f"attribute {src_of(e)} (line {e.lineno})")
+        # rows[:k, :] of a two-dimensional buffer held as the list of its rows
+        if isinstance(e, ast.Subscript) and isinstance(e.slice, ast.Tuple) and len(e.slice.elts) == 2 \
+                and all(isinstance(x, ast.Slice) and x.lower is None and x.step is None for x in e.slice.elts) \
+                and e.slice.elts[0].upper is not None and e.slice.elts[1].upper is None:
+            return f"(PV.takeN {self.expr(e.value, cx)} {self.expr(e.slice.elts[0].upper, cx)})"
         if isinstance(e, ast.Subscript) and isinstance(e.slice, ast.Slice) and e.slice.lower is None and e.slice.step is None \
                 and e.slice.upper is not None and src_of(e.slice.upper) == "-1":
             return f"(PV.sliceInit {self.expr(e.value, cx)})"
@@ -365,6 +383,10 @@ class Translator:
             sname = ident(f.id + "_call")
             cx["symbols"].add(sname)
             return sname
+        # self.<field>.index(x): position of the first equal element (ValueError if there is none)
+        if isinstance(f, ast.Attribute) and f.attr == "index" and flat(f.value) and flat(f.value).startswith("self.") \
+                and f.value.attr in cx["selfattrs"] and len(e.args) == 1 and not e.keywords:
+            return f"(PV.listIndex {cx['selfattrs'][f.value.attr]} {self.expr(e.args[0], cx)})"
         if t == "np.exp" and len(e.args) == 1 and not e.keywords:
             return f"(PV.exp expf {self.expr(e.args[0], cx)})"
         if t == "np.sum" and len(e.args) == 1 and not e.keywords:
@@ -486,12 +508,31 @@ class Translator:
                 val = f"(PV.listExtend {cx['selfattrs'][attr]} {self.expr(s.value.args[0], cx)})"
                 cx2 = dict(cx, selfattrs=dict(cx["selfattrs"], **{attr: lean}))
                 return pad + f"let {lean} := {val}\n" + self.stmts(rest, cx2, kind, end, ind)
+            # self.<field>.append(x)
+            if f.attr == "append" and flat(f.value) and flat(f.value).startswith("self.") and f.value.attr in cx["selfattrs"] \
+                    and len(s.value.args) == 1 and not s.value.keywords:
+                attr = f.value.attr
+                lean = "self_" + attr
+                val = f"(PV.listAppend {cx['selfattrs'][attr]} {self.expr(s.value.args[0], cx)})"
+                cx2 = dict(cx, selfattrs=dict(cx["selfattrs"], **{attr: lean}))
+                return pad + f"let {lean} := {val}\n" + self.stmts(rest, cx2, kind, end, ind)
             # self.<method>(...) of a translated state-changing method: the fields are rebound from its result
             cls = cx.get("cls")
             if cls and isinstance(f.value, ast.Name) and f.value.id == "self" and f.attr in self.classes[cls].get("mutators", {}):
                 info = self.classes[cls]["mutators"][f.attr]
                 flds = self.classes[cls]["fields"]
                 args = self.bind_args(info, s.value, cx)
+                # the callee's symbol parameters `<param>_<attr>` of its handle parameters: the same attribute of the argument
+                for sy in info.symbols:
+                    hp = [h for h in info.handles if sy.startswith(ident(h + "_"))]
+                    if len(hp) != 1 or s.value.keywords:
+                        raise Unsupported(f"call of {f.attr}, whose parameter {sy} cannot be bound (line {s.lineno})")
+                    a_ = s.value.args[info.params.index(hp[0])]
+                    if not (isinstance(a_, ast.Name) and a_.id in cx.get("handles", set())):
+                        raise Unsupported(f"argument {src_of(a_)} of {f.attr} is not a handle parameter (line {s.lineno})")
+                    sname = ident(a_.id + sy[len(ident(hp[0])):])
+                    cx["symbols"].add(sname)
+                    args.append(sname)
                 call = " ".join([info.lean_name, "expf"] + [cx["selfattrs"][x] for x in flds] + args)
                 out = pad + f"let st_ := {call}\n"
                 new_attrs = dict(cx["selfattrs"])
@@ -561,6 +602,8 @@ class Translator:
                     newv = f"(PV.setInit {cur} {rhs})"
                 elif is_last:
                     newv = f"(PV.setLast {cur} {rhs})"
+                elif not isinstance(tgt.slice, ast.Slice) and isinstance(s, ast.Assign):
+                    newv = f"(PV.setAt {cur} {self.expr(tgt.slice, cx)} {rhs})"
                 else:
                     raise Unsupported(f"subscript assignment {src_of(s)} (line {s.lineno})")
                 lean = "self_" + attr
@@ -672,11 +715,13 @@ class Translator:
         is_property = any(flat(d) == "property" for d in fn.decorator_list)
         # object-valued parameters: annotated with a translated class (expanded into its fields) or with the
         # merge-function base class (a `List PV`: class name :: attributes)
-        objparams, listparams = {}, set()
+        objparams, listparams, handle_params = {}, set(), set()
         for x in list(a.args) + list(a.kwonlyargs):
             ann = x.annotation
             nm = ann.value if isinstance(ann, ast.Constant) and isinstance(ann.value, str) else (ann.id if isinstance(ann, ast.Name) else None)
-            if nm in self.classes and self.classes[nm].get("fields") is not None and x.arg not in ("self", "cls"):
+            if cls is not None and nm in self.classes[cls].get("handles", []) and x.arg not in ("self", "cls"):
+                handle_params.add(x.arg)
+            elif nm in self.classes and self.classes[nm].get("fields") is not None and x.arg not in ("self", "cls"):
                 objparams[x.arg] = nm
             elif nm == DISPATCH_BASE:
                 listparams.add(x.arg)
@@ -692,7 +737,7 @@ class Translator:
                     if isinstance(n.func.value, ast.Name) and n.func.value.id == "self" \
                             and n.func.attr in self.classes[cls].get("mutators", {}):
                         mutating = True
-                    if n.func.attr == "extend" and root_name(n.func.value) == "self":
+                    if n.func.attr in ("extend", "append") and root_name(n.func.value) == "self":
                         mutating = True
         uses_effects = any(isinstance(n, ast.Call) and flat(n.func) in EFFECTS for n in ast.walk(fn)) \
             or any(isinstance(n, ast.With) for n in ast.walk(fn))
@@ -717,11 +762,11 @@ class Translator:
                 for a_ in n.args:
                     if isinstance(a_, ast.Name) and a_.id in params:
                         opaque.add(a_.id)
-        opaque -= set(objparams) | listparams
+        opaque -= set(objparams) | listparams | handle_params
         cx = {"params": set(params) - opaque - set(objparams), "selfattrs": selfattrs, "symbols": set(),
               "locals": set(), "opaque": opaque, "dataclass_fields": fields if is_classmethod else None,
               "written": [], "cls": cls, "objparams": objparams, "listparams": listparams, "mutating": mutating,
-              "status_first": status_first, "closures": set(getattr(fn, "_closures", []))}
+              "status_first": status_first, "closures": set(getattr(fn, "_closures", [])), "handles": handle_params}
         partial = is_init and self.classes[cls].get("partial_init")
         if partial:
             def end(c):
@@ -809,6 +854,7 @@ class Translator:
             info.n_ret = 1 if status_first else 0
 
         info.objparams, info.listparams = objparams, listparams
+        info.symbols, info.handles = symbols, handle_params
         return info, cx
 
     def emit_dispatch(self, classes, path):
@@ -908,6 +954,7 @@ class Translator:
             if spec.get("fields"):
                 c["fields"] = list(spec["fields"])
             c["partial_init"] = bool(spec.get("partial_init"))
+            c["handles"] = list(spec.get("handles", []))
             c["consts"] = {n.targets[0].id: n.value.value for n in cdef.body
                            if isinstance(n, ast.Assign) and isinstance(n.targets[0], ast.Name)
                            and isinstance(n.value, ast.Constant) and isinstance(n.value.value, str)}
